@@ -153,6 +153,19 @@ func newC17fn(w *World, name string) *c17fn {
 		x.nass[obj]++
 		switch kind {
 		case token.DEFINE, token.ASSIGN:
+			if be, ok := unparenOrNil(rhs).(*ast.BinaryExpr); ok && kind == token.ASSIGN && be.Op == token.ADD {
+				// v = v + c (c >= 0), also as part of a parallel assignment
+				for _, pr := range [][2]ast.Expr{{be.X, be.Y}, {be.Y, be.X}} {
+					if id2, ok := ast.Unparen(pr[0]).(*ast.Ident); ok && x.info.ObjectOf(id2) == obj {
+						if tv, ok := x.info.Types[pr[1]]; ok && tv.Value != nil {
+							if v, ok := constant.Int64Val(constant.ToInt(tv.Value)); ok && v >= 0 {
+								mono[obj] = true
+								return
+							}
+						}
+					}
+				}
+			}
 			if rhs != nil {
 				x.alias[obj] = rhs
 				if tv, ok := x.info.Types[rhs]; ok && tv.Value != nil {
@@ -243,6 +256,18 @@ func (x *c17fn) lin(e ast.Expr) (lin, bool) {
 			// single-definition alias of a length: n := len(p)
 			if c, ok := ast.Unparen(rhs).(*ast.CallExpr); ok && x.isBuiltin(c, "len") {
 				return x.lin(rhs)
+			}
+			// need := n + 1: linear in lengths/capacities and constants only (nothing that could change in between)
+			if l, ok := x.lin(rhs); ok {
+				pure := true
+				for t := range l.coef {
+					if strings.HasPrefix(t, "v:") {
+						pure = false
+					}
+				}
+				if pure {
+					return l, true
+				}
 			}
 		}
 		if _, ok := obj.(*types.Var); ok {
@@ -848,13 +873,17 @@ func checkC17Index(w *World, r *Report) {
 				} else if baseIsString {
 					okHi, how = x.prove(le.sub(lin{coef: map[string]int64{"len(" + exprStr(base) + ")": 1}}), token.LEQ, facts)
 				} else {
-					capTerm, ok := x.capOf(base, s)
-					if !ok {
+					capTerms := x.capOf(base, s)
+					if len(capTerms) == 0 {
 						r.Unrecognised("C17.2: capacity of %s at %s unknown", exprStr(base), pos)
 						allOK = false
 						continue
 					}
-					okHi, how = x.prove(le.sub(capTerm), token.LEQ, facts)
+					for _, capTerm := range capTerms {
+						if okHi, how = x.prove(le.sub(capTerm), token.LEQ, facts); okHi {
+							break
+						}
+					}
 				}
 				if !okLo || !okHi {
 					allOK = false
@@ -968,7 +997,8 @@ func (x *c17fn) bufEmptiness(facts []astFact) (empty, nonEmpty bool) {
 
 // capOf: the capacity of the buffer expression at the use, as a linear term: a constant when the only definition that
 // reaches the use is make([]byte, _, K); cap(*ptr) for a dereferenced pointer parameter (facts speak about an alias).
-func (x *c17fn) capOf(base ast.Expr, use ast.Node) (lin, bool) {
+func (x *c17fn) capOf(base ast.Expr, use ast.Node) []lin {
+	var out []lin
 	switch t := ast.Unparen(base).(type) {
 	case *ast.Ident:
 		obj := x.info.ObjectOf(t)
@@ -1000,23 +1030,27 @@ func (x *c17fn) capOf(base ast.Expr, use ast.Node) (lin, bool) {
 			}
 		}
 		if bad || len(defs) != 1 {
-			return lin{}, false
+			return nil
 		}
 		if c, ok := ast.Unparen(defs[0]).(*ast.CallExpr); ok && x.isBuiltin(c, "make") && len(c.Args) == 3 {
-			return x.lin(c.Args[2])
+			if l, ok := x.lin(c.Args[2]); ok {
+				out = append(out, l)
+			}
 		}
 	case *ast.StarExpr:
-		// (*buf)[:l]: facts are about cap(b) with b := *buf the only definition reaching; accept when such an alias exists
+		// (*buf)[:l]: a fact about cap(*buf) itself (killed by a store through the pointer) ...
+		out = append(out, lin{coef: map[string]int64{"cap(" + exprStr(t) + ")": 1}})
+		// ... or about cap(b) with b := *buf the only definition reaching
 		for obj, rhs := range x.aliasAll() {
 			if exprStr(rhs) == exprStr(t) {
 				ub, ui := x.af.blockOf(use)
 				if x.singleReachingDef(obj, rhs, ub, ui) {
-					return lin{coef: map[string]int64{"cap(" + obj.Name() + ")": 1}}, true
+					out = append(out, lin{coef: map[string]int64{"cap(" + obj.Name() + ")": 1}})
 				}
 			}
 		}
 	}
-	return lin{}, false
+	return out
 }
 
 // aliasAll: every `v := <expr>` / `v = <expr>` assignment's (object, rhs), first definition per object.
@@ -1146,4 +1180,11 @@ func checkC17Alphabet(w *World, r *Report) {
 			return true
 		})
 	}
+}
+
+func unparenOrNil(e ast.Expr) ast.Expr {
+	if e == nil {
+		return nil
+	}
+	return ast.Unparen(e)
 }
